@@ -61,6 +61,42 @@ def do_import(pid):
                        confirmed_rule="patch applies; unchanged tree + demo passes; patched tree passes the existing suite; patched tree + demo fails"),
                   open(os.path.join(dst, "meta.json"), "w"), indent=1)
 
+def do_import_wt(wt, name, prop, needs=""):
+    """importwt <worktree> <name> <prop>: the sub-agent left the change applied in <worktree> together with
+    zz_demo_test.go (TestDemo) and patch.diff; confirm all of it here and store it as seeded/<name>."""
+    patch, demo = os.path.join(wt, "patch.diff"), os.path.join(wt, "zz_demo_test.go")
+    if not (os.path.exists(patch) and os.path.exists(demo)):
+        print(name, "incomplete"); return
+    tmp = "/tmp/_imp_%s" % name
+    shutil.rmtree(tmp, ignore_errors=True); os.makedirs(tmp)
+    shutil.copy(patch, tmp); shutil.copy(demo, os.path.join(tmp, "demo_test.go"))
+    sh("git checkout -q -- . && rm -f zz_demo_test.go patch.diff seeded_demo_test.go", wt)
+    ran = []
+    rc, o = sh("git apply --check %s/patch.diff" % tmp, wt); ran.append(("git apply --check", rc))
+    if rc != 0:
+        print(name, "patch does not apply", o[-300:]); return
+    shutil.copy(os.path.join(tmp, "demo_test.go"), os.path.join(wt, "seeded_demo_test.go"))
+    rc_clean, _ = sh("go test -run TestDemo -vet=off -count=1 -timeout 10m .", wt); ran.append(("clean+demo: go test -run TestDemo", rc_clean))
+    os.remove(os.path.join(wt, "seeded_demo_test.go"))
+    sh("git apply %s/patch.diff" % tmp, wt)
+    rc_suite, _ = sh("go build ./... && go test -vet=off -count=1 -timeout 10m ./...", wt); ran.append(("patched: existing suite", rc_suite))
+    shutil.copy(os.path.join(tmp, "demo_test.go"), os.path.join(wt, "seeded_demo_test.go"))
+    rc_demo, _ = sh("go test -run TestDemo -vet=off -count=1 -timeout 10m .", wt); ran.append(("patched+demo: go test -run TestDemo", rc_demo))
+    sh("git checkout -q -- . && rm -f seeded_demo_test.go", wt)
+    ok = rc_clean == 0 and rc_suite == 0 and rc_demo != 0
+    print(name, "confirmed" if ok else "REJECTED", ran)
+    if ok:
+        dst = os.path.join(V, "seeded", name)
+        shutil.rmtree(dst, ignore_errors=True); os.makedirs(dst)
+        shutil.copy(os.path.join(tmp, "patch.diff"), dst); shutil.copy(os.path.join(tmp, "demo_test.go"), dst)
+        json.dump(dict(property=prop, source="independent sub-agent given only the property text and a scratch worktree",
+                       base_commit=sh("git rev-parse HEAD", wt)[1].strip(), needs_to_manifest=needs,
+                       confirmed=[dict(cmd=c, exit=r) for c, r in ran],
+                       confirmed_rule="patch applies; unchanged tree + demo passes; patched tree passes the existing suite; patched tree + demo fails"),
+                  open(os.path.join(dst, "meta.json"), "w"), indent=1)
+    shutil.rmtree(tmp, ignore_errors=True)
+
+
 def do_run_scratch(names, scratch):
     """Like do_run, but on a scratch clone of /repo (VERIF_REPO), so that /repo is never touched and
     several runs can proceed in parallel."""
@@ -136,5 +172,7 @@ if __name__ == "__main__":
             do_import(pid)
     elif sys.argv[1] == "run":
         do_run(sys.argv[2:])
+    elif sys.argv[1] == "importwt":  # importwt <worktree> <name> <prop> [needs-to-manifest text]
+        do_import_wt(sys.argv[2], sys.argv[3], sys.argv[4], sys.argv[5] if len(sys.argv) > 5 else "")
     elif sys.argv[1] == "runs":     # runs <scratch dir> [names...]
         do_run_scratch(sys.argv[3:], sys.argv[2])
